@@ -9,7 +9,7 @@ CHECKS = {
    "per-line context/changed classification and the function text are not compared; one open known finding (hunkless git entries the writer cannot represent) is tolerated by an exact signature",
    "property-based testing: round trip parse-write-parse-write over structured, token-level and mutational generators"),
  "C06": ("exploration",
-   "differential test against the single-threaded run under schedules the harness owns: the cfg-guarded turnstile orders the start and end of every file patch application and the save-phase file operations according to a script; per workspace a free run, the two targeted extremes (worker owning the failing file patch last / first) and several random linear extensions are forced; schedules are sampled and targeted, not enumerated",
+   "differential test against the single-threaded run under schedules the harness owns: the cfg-guarded turnstile orders the start and end of every file patch application and the save-phase file operations according to a script; per workspace a free run, targeted extremes (worker owning the failing file patch last / first; a later failure reported after an earlier one), several random linear extensions, and for small workspaces EVERY linear extension of the apply phase (capped at 24 quick / 120 thorough) are forced; beyond that bound schedules are sampled, not enumerated",
    "assumes workers interact only at the hooked points (they share one atomic); forced runs whose trace shows a stall release are counted but not trusted as forced",
    "property-based testing with harness-owned schedules (seeded random linear extensions + targeted extremes); differential oracle vs --threads 1"),
  "C07": ("exploration",
@@ -17,8 +17,8 @@ CHECKS = {
    "the sub-command uses String keys instead of paths; beyond the bound only sampled",
    "property-based testing: exhaustive small-scope sweep + random sequences; oracle = union-find reference model; trace invariant at CLI level"),
  "C18": ("fault_enumeration",
-   "for every generated workspace the n output operations of the push are listed through a cfg-guarded hook and every single one (k = 1..n) is failed in turn on a fresh copy; additionally write(2) itself is made to fail through RLIMIT_FSIZE; each faulty run must exit 1 with a message naming the file and must not record patches whose files are not all written",
-   "faults at operation boundaries and EFBIG inside write(2); no partial-write-then-success, fsync or crash faults",
+   "for every generated workspace the n output operations of the push are listed through a cfg-guarded hook and every single one (k = 1..n) is failed in turn on a fresh copy; additionally write(2) itself is made to fail through RLIMIT_FSIZE, and real obstacles are placed (.pc or a backup directory being a regular file, the reject path being a directory); each faulty run must exit 1 with a message naming the file and must not record patches whose files are not all written",
+   "faults at operation boundaries, EFBIG inside write(2) and wrong-type path components; no partial-write-then-success, fsync or crash faults",
    "fault injection enumerated per generated workspace (every k-th output operation) + kernel-level write faults; oracle = exit status / message / applied-patches invariant"),
  "C16": ("exploration",
    "generated workspaces with -pN/-R spellings and differing ---/+++ names whose resolution depends on files created, deleted or renamed earlier in the same run; each is pushed sequentially, in parallel and split over two invocations; all must equal the model tree and the backup entries must name the resolved path",
@@ -49,7 +49,7 @@ CHECKS = {
    "only a sample of option combinations per workspace (3 quick / 6 thorough of 11 sets)",
    "property-based testing: differential oracle across option variants of the same run"),
  "C15": ("exploration",
-   "generated workspaces hard-linked into a twin tree; after the push the twin must keep bytes and modes, changed files must be fresh inodes, files not named in the pushed range must keep inode, link count 2 and pinned mtime",
+   "generated workspaces hard-linked into a twin tree; after the push the twin (incl. stale rejects and stale .pc backups) must keep bytes and modes, changed files must be fresh inodes, files not named in the pushed range must keep inode, link count 2 and pinned mtime; a second phase runs the push as an unprivileged user with a read-only directory (unlink fails, file writable): the twin must still be intact and the push must fail",
    "inode identity judged against the twin, observation by snapshot",
    "property-based testing: hard-link twin invariant over generated workspaces"),
  "C02": ("exploration",
@@ -61,7 +61,7 @@ CHECKS = {
    "the reconstruction takes the reported positions as given (their correctness is C02); sampled, not exhaustive",
    "property-based testing: generated multi-hunk patches; oracle = line-level reconstruction from reports (reference model)"),
  "C04": ("exploration",
-   "seeded random histories of 1-5 applications (modify with partial failures, create, delete, truncate, mode change; both directions; fuzz 0-2) on one file followed by LIFO rollback; after each undo the {content, deleted, permissions} must equal the recorded earlier state and nothing may panic; rename undo is exercised at CLI level by C05/C06",
+   "seeded random histories of 1-5 applications (modify with partial failures, create, delete, truncate, mode change; both directions; fuzz 0-2) on one file followed by LIFO rollback; after each undo the {content, deleted, permissions} must equal the recorded earlier state and nothing may panic; 1 case in 60 is a generated failing workspace pushed through the binary, whose rollback (incl. renames) must leave the model tree",
    "in-process part uses the libpatch API the binary uses; sampled histories",
    "property-based testing: stateful histories (apply* then rollback*) with an inverse oracle"),
  "C05": ("exploration",
@@ -81,7 +81,7 @@ CHECKS = {
    "trusts the harness's diff renderer (self-checked by an independent exact applier in the regression inputs) and that /dev/null is the spelling of an absent side",
    "property-based testing: generated (A,B) pairs x context width x merge policy x header dialect; round-trip oracle by construction, in-process and through the binary"),
  "C11": ("exploration",
-   "bounded-exhaustive enumeration of all short sequences of meaningful patch lines plus seeded random/mutational inputs, each parsed in-process under catch_unwind with an allocation bound, and a sample pushed through the real binary (as patch file and as series file); shows absence of crashes, oversized allocations and runaway work on everything generated, not for all byte strings",
+   "bounded-exhaustive enumeration of all short sequences of meaningful patch lines plus seeded random/mutational inputs, each parsed in-process under catch_unwind with an allocation bound and a watchdog, every accepted patch also applied and rolled back in-process, and about a quarter of the random inputs pushed through the real binary (as patch file and as series file); shows absence of crashes, oversized allocations and runaway work on everything generated, not for all byte strings",
    "trusts the harness's counting allocator, process isolation of shards, and that the dev-profile build (overflow checks on) is representative",
    "property-based testing: exhaustive token-sequence sweep + random/mutational generation; oracle = no panic, bounded allocation, exit status in {0,1}, CPU-time scaling sibling for termination"),
 }
